@@ -15,7 +15,7 @@ func init() {
 	register(&Rule{
 		ID:    "C24",
 		Title: "A transaction signature covers every semantic field",
-		Pkgs:  []string{"data/transaction", "process/transaction"},
+		Pkgs:  []string{"data/transaction", "process/transaction", "marshal"},
 		Explain: "Decides the writer/reader field agreement behind 'changing any semantic field invalidates the signature': every field of transaction.Transaction except Signature is read in " +
 			"GetDataForSigning and flows into a field of FrontendTransaction - a distinct one per transaction field, with a JSON tag that is not `-` and a JSON name that is unique - and that struct is what is " +
 			"marshalled and returned (a new protobuf field creates a new obligation automatically); FrontendTransaction.Signature is left empty. InterceptedTransaction.verifySig passes to the signer, with the " +
@@ -142,6 +142,44 @@ func runC24(c *core.Ctx) {
 			continue
 		}
 		c.Pass("C24/field-covered-by-signature", name, fn.Pos(), fmt.Sprintf("flows into FrontendTransaction.%s (json %q)", target.Name(), jsonName[target]))
+	}
+	// every DTO field is filled unconditionally: a store that does not dominate the Marshal call covers the field only for some transactions
+	var marshalCall ssa.Instruction
+	for _, in := range core.CallsIn(fn, func(in ssa.Instruction, cc *ssa.CallCommon) bool { return isInvoke(cc, "Marshal") }) {
+		marshalCall = in
+	}
+	if marshalCall != nil {
+		core.Instrs(fn, func(in ssa.Instruction) {
+			st, ok := in.(*ssa.Store)
+			if !ok {
+				return
+			}
+			fa, ok := st.Addr.(*ssa.FieldAddr)
+			if !ok || namedElem(fa.X.Type()) != ftxT {
+				return
+			}
+			c.Check(core.DominatesInstr(st, marshalCall), "C24/field-covered-by-signature", "FrontendTransaction."+core.FieldOfAddr(fa).Name()+"/unconditional", st.Pos(),
+				"set on every path before the DTO is marshalled", "FrontendTransaction."+core.FieldOfAddr(fa).Name()+" is set only on some paths: for other transactions the field is not part of the signed bytes")
+		})
+	}
+	// the signing bytes are owned by the caller: the marshalizer returns bytes of a buffer allocated in the call, not of shared/pooled memory
+	if mf := optM(c, "marshal", "TxJsonMarshalizer", "Marshal"); mf != nil {
+		ok, why := true, ""
+		for _, in := range core.CallsIn(mf, func(in ssa.Instruction, cc *ssa.CallCommon) bool {
+			d := core.CallDesc(cc)
+			return d.Pkg == "sync" && d.Recv == "Pool"
+		}) {
+			ok, why = false, "uses a sync.Pool at "+c.P.Pos(in.Pos())
+		}
+		core.Instrs(mf, func(in ssa.Instruction) {
+			if cc := core.CallOf(in); cc != nil && core.CallDesc(cc).Is("bytes", "Buffer", "Bytes") {
+				if _, fresh := cc.Args[0].(*ssa.Alloc); !fresh {
+					ok, why = false, "returns the bytes of a buffer that was not allocated in this call"
+				}
+			}
+		})
+		c.Check(ok, "C24/signed-bytes-are-the-dto", "TxJsonMarshalizer.Marshal/bytes-owned-by-caller", mf.Pos(), "the returned bytes belong to a buffer allocated in the call",
+			"TxJsonMarshalizer.Marshal "+why+": a later Marshal call rewrites the signing bytes an earlier caller still holds")
 	}
 	c.Floor("C24/field-covered-by-signature", 13)
 
